@@ -33,7 +33,7 @@ class TickRounding(Harness):
     bounds = {"quick": "tick in {1, 1/2, 1/4, 1/10, 1/100, 1e-5, 7/4, 3 (exact rationals), and the doubles 0.1, 0.01, "
                        "1e-05, 2.5 taken at their exact binary value}; price any real in (0, 1e9]; buy and sell (the side as "
                        "a bool, and for two ticks as an int or a numpy.bool_)",
-              "thorough": "same"}
+              "thorough": "adds the ticks 1/3, 2/7, 5, 10, 1/3000, 250 and the doubles 0.05, 0.2, 0.001, 0.125, 12.5, 1e-07"}
     reach = ("nontrivial", "on-grid")
     stubs = ("pams.market.math -> the same functions with their exact-real definitions when applied to proxies "
              "(floor, ceil, trunc, fabs, isclose); plain numbers go to the real module",)
@@ -42,15 +42,18 @@ class TickRounding(Harness):
     outside = ("floating-point error of price / tick for ticks that are not binary fractions", "non-positive prices")
     agreement_runs = 24
 
+    more_ticks = [F(1, 3), F(2, 7), 5, 10, 0.05, 0.2, 0.001, 0.125, 12.5, 1e-07, F(1, 3000), 250]
+
     def cases(self, tier):
-        out = [{"tick": i, "is_buy": b} for i in range(len(self.ticks)) for b in (True, False)]
+        n = len(self.ticks) + (len(self.more_ticks) if tier == "thorough" else 0)
+        out = [{"tick": i, "is_buy": b} for i in range(n) for b in (True, False)]
         # the side given by a truthy / falsy value that is not the bool singleton (an int, a numpy.bool_ as
         # produced by a numpy comparison)
         out += [{"tick": i, "is_buy": b, "flag": f} for i in (0, 3) for b in (True, False) for f in ("int", "numpy")]
         return out
 
     def run(self, g, case):
-        t = self.ticks[case["tick"]]
+        t = (self.ticks + self.more_ticks)[case["tick"]]
         if isinstance(t, float):
             t = F(t)      # the double's exact binary value (what "lifting by exact value" means)
         lg = RecLogger()
